@@ -39,6 +39,15 @@ def plan(tier, seed):
         for es in all_graphs(n):
             cases.append({"n": n, "edges": [list(e) for e in es]})
             trans += len(es)
+    if 4 not in p["sizes"]:
+        # quick tier: every 4-node graph with at most 5 edges, and every 5-node graph with at most 3
+        for n, me in ((4, 5), (5, 3)):
+            for es in all_graphs(n):
+                if len(es) > me:
+                    break
+                if any(i == n - 1 or j == n - 1 for i, j in es):  # graphs not already counted with fewer nodes
+                    cases.append({"n": n, "edges": [list(e) for e in es]})
+                    trans += len(es)
     ngraphs = len(cases)
     for k in range(len(INTERLEAVE_POOLS)):
         cases.append({"n": 3, "edges": [], "mode": "interleave", "pool": k})
